@@ -43,7 +43,7 @@ func c05(c *engine.Ctx) {
 			if call == nil || engine.CalleeID(call.Common()) != "crypto.MessageKey" || k.Op != token.EQL {
 				return false
 			}
-			if !strings.HasSuffix(engine.Describe(k.Y), "p:encrypted.MsgKey") {
+			if !strings.HasSuffix(engine.DescribeVal(k.Y), "p:encrypted.MsgKey") {
 				return false
 			}
 			mk = call
@@ -94,6 +94,26 @@ func c05(c *engine.Ctx) {
 		c.Check(okKeys, "C05.R2", "Cipher.decryptMessage/keys-args", r.Pos(), "AES key/iv must be derived from k.Value and encrypted.MsgKey")
 	}
 	c.Floor("C05.R1b", 1, m)
+	// R1c: the whole ciphertext is decrypted (no silent truncation of trailing bytes) and a partial block rejects
+	dcalls := engine.CallsTo(dm, false, "github.com/gotd/ige.DecryptAES256Blocks", "github.com/gotd/ige.DecryptBlocks")
+	for _, call := range dcalls {
+		args := call.Common().Args
+		src := args[len(args)-1]
+		whole := engine.Describe(src) == "p:encrypted.EncryptedData"
+		guarded := engine.GuardedBy(call, func(k engine.Cmp) bool {
+			rem, isr := engine.Unwrap(k.X).(*ssa.BinOp)
+			z, isz := engine.ConstInt(k.Y)
+			if !isr || rem.Op != token.REM || !isz || z != 0 || k.Op != token.EQL {
+				return false
+			}
+			md, _ := engine.ConstInt(rem.Y)
+			lc := engine.CallOf(rem.X)
+			return md == 16 && lc != nil && engine.CalleeID(lc.Common()) == "builtin.len" && engine.Describe(lc.Common().Args[0]) == "p:encrypted.EncryptedData"
+		})
+		c.Check(whole && guarded, "C05.R1", "Cipher.decryptMessage/whole-ciphertext", call.Pos(),
+			"every byte of the ciphertext must be authenticated: AES-IGE must decrypt encrypted.EncryptedData itself (got %s) after rejecting len %% 16 != 0", engine.Describe(src))
+	}
+	c.Floor("C05.R1c", 1, len(dcalls))
 
 	// R3 error discipline
 	e := 0
